@@ -21,7 +21,7 @@ def grid(tier):
     out = []
     for b, r, e, m, t in itertools.product(bs, rates, exps, mbs, mts):
         if tier == 'quick' and not ((e is None or e in (1, 3)) and (m is None or m in (1, 3)) and r in (0, .5, .9)
-                                    and b in (1, 2, 3)):
+                                    and (b in (1, 2, 3) or (b == 4 and t is None and m in (None, 3) and e in (None, 3)))):
             continue
         for sort_key in (False, True):
             if sort_key and not (b == 3 and r == .5):
